@@ -40,7 +40,7 @@ def judge_lex(ctx, case, m, i):
     return corr, lexcheck.token_oracle(case['text'], toks, errs)
 
 
-MARKER_LABEL = {'undefined-var-rhs': 7996, 'undefined-var-subscript': 7996, 'undefined-var-target': 7995, 'task-undefined': 7999, 'enum-value-undefined': 7998,
+MARKER_LABEL = {'undefined-var-rhs': 7996, 'undefined-var-call-arg': 7996, 'undefined-var-subscript': 7996, 'undefined-var-condition': 7996, 'undefined-var-target': 7995, 'task-undefined': 7999, 'enum-value-undefined': 7998,
                 'call-instance-undeclared': 7994, 'call-formal-unknown': 7993}
 ELEMENTARY = {'BOOL', 'SINT', 'INT', 'DINT', 'LINT', 'USINT', 'UINT', 'UDINT', 'ULINT', 'REAL', 'LREAL', 'TIME', 'DATE', 'TIME_OF_DAY', 'TOD', 'DATE_AND_TIME', 'DT',
               'STRING', 'WSTRING', 'BYTE', 'WORD', 'DWORD', 'LWORD'}
